@@ -156,7 +156,7 @@ func runCheck(id, tier string) int {
 	for _, d := range m.Deaths {
 		if id == "C03" || id == "C14" {
 			v := Violation{Prop: id, Kind: "death", Class: "worker-death", Key: "death:" + d,
-				Msg: "worker process died or hung while executing: " + d, Size: len(d), Case: mustJSON(map[string]string{"desc": d})}
+				Msg: "worker process died or hung while executing: " + d, Size: len(d), Case: mustJSON(map[string]string{"desc": d, "property": id})}
 			addViolation(m, v)
 		} else {
 			m.Counters["skipped_worker_death"]++
